@@ -153,7 +153,7 @@ theorem tail_direct (c : Cfg) (ar aq : Nat) (s : S) (b : Base c ar aq s) (hrun :
   · intro _ _ hh; simp at hh
   · intro _ hh; simp at hh
   · intro _ hh; simp [fwdPhase] at hh
-  · intro _ hh; simp [fwdPhase] at hh
+  · intro _ hh; simp at hh
   · intro _ _ hh; simp at hh
   · intro _ hh; simp at hh
   · intro hh; simp at hh
@@ -191,7 +191,7 @@ theorem tail_oneway (c : Cfg) (ar aq : Nat) (s : S) (b : Base c ar aq s) (hrun :
   · intro _ hh; simp [how] at hh
   · intro _ hh; simp at hh
   · intro _ _ hu; exact h27 hu
-  · intro _ _ hh; simp at hh
+  · intro _ hh; simp at hh
   · intro _ _ hh; simp at hh
   · intro _ hh; simp at hh
   · rcases hheld with h | ⟨h, _⟩
@@ -234,7 +234,7 @@ theorem tail_retry (c : Cfg) (ar aq : Nat) (s : S) (b : Base c ar aq s) (hrun : 
   · intro _ _ _; rfl
   · intro _ _; exact ⟨hpt, fun hh => by simp [hur] at hh⟩
   · intro _ _ hh; simp [hurr] at hh
-  · intro _ _ hh; simp at hh
+  · intro _ hh; simp at hh
   · intro _ _ _; simp
   · intro _ hh; simp at hh
 
